@@ -676,6 +676,33 @@ def c09n(ctx):
                      sorted("%s: %s.%s" % x for x in missing), "; unexpected: %s" % sorted("%s: %s.%s" % x for x in extra) if extra else ""))
 
 
+def c09o(ctx):
+    """The per-key flight record is what a writer marks and what a loader publishes under.  It is registered by the loader that
+    becomes the worker and unregistered BY KEY by that same worker when its work is done.  Nobody else may take a record out
+    of the map: if a writer detaches the flight it marks, a second loader can register for the key while the first worker is
+    still running, the first worker's clean-up then removes the SECOND loader's record, a later write finds nothing to mark,
+    and the second loader publishes a value it read before that write."""
+    prog = ctx.prog
+    o = ctx.ob("C09.o", "single-flight/only-the-worker-unregisters-its-flight", "K3", "the flight map is removed from only in the worker path of SingleFlight::wait_or_work, and invalidate only marks")
+    n = 0
+    for b in prog.all_bodies(["qbice_storage"]):
+        if not (b.file or "").endswith("single_flight.rs"):
+            continue
+        for s_ in b.calls_to(r"HashMap::<K, V, S, A>::(remove|remove_entry|clear|drain|retain|extract_if)$|hash_map::OccupiedEntry::<.*>::remove(_entry)?$"):
+            n += 1
+            ctx.touch(b)
+            if not b.name.startswith("SingleFlight::wait_or_work"):
+                ctx.fail(o, s_, "%s takes a flight record out of the map: only the worker that registered it may (by key, when its work is done) - a detached flight lets a second load "
+                         "register while the first is running, the first worker's clean-up removes the second's record, and a write made then can no longer mark the load it outdates" % b.name)
+    inv = prog.body("SingleFlight::invalidate")
+    ctx.touch(inv)
+    if not inv.calls_to(r"Mutex::<R, T>::lock$"):
+        ctx.fail(o, Site(inv, 0, 0), "SingleFlight::invalidate no longer marks the flight under its mutex")
+    o.sites = n
+    if n < 1:
+        ctx.fail(o, "(program)", "anchor missing: the worker's unregistration in SingleFlight::wait_or_work")
+
+
 def c09g_staging(ctx):
     prog = ctx.prog
     # ---- a staging snapshot first applies the deferred messages
@@ -757,6 +784,7 @@ def run(ctx):
     ctx.run_clause("C09.n", c09n)
     ctx.run_clause("C09.k", c09k)
     ctx.run_clause("C09.m", c09m)
+    ctx.run_clause("C09.o", c09o)
     # un-pin notifications release cached entries for eviction: they may only follow the commit of the data they cover, which
     # is decided in the committer (C10.a: apply the expected epoch, consume before listing for notification), here as C09.j
     from . import C10
